@@ -136,6 +136,17 @@ pub fn run(ctx: &mut Ctx) {
                 ctx.edge();
                 ctx.check(sub, rule, &d);
             }
+            // the value in the positions that are SELECTED rather than tested: what a deciding operator hands back is
+            // the operand as it is (null, false, 0, "" included) - being falsy does not make a taken branch "not taken"
+            for (sub, rule) in [
+                ("if:then-value", op("if", vec![json!(true), e.clone(), json!("else")])), ("if:else-value", op("if", vec![json!(false), json!("then"), e.clone()])),
+                ("if:elseif-value", op("if", vec![json!(0), json!("a"), json!([0]), e.clone(), json!(""), json!("c"), json!("d")])), ("if:single", op("if", vec![e.clone()])),
+                ("?::then-value", op("?:", vec![json!("0"), e.clone(), json!("else")])), ("and:last", op("and", vec![json!(1), e.clone()])), ("or:last", op("or", vec![json!(0), e.clone()])),
+                ("and:single", op("and", vec![e.clone()])), ("or:single", op("or", vec![e.clone()])), ("if:then-value:no-else", op("if", vec![json!([[]]), e.clone()])),
+            ] {
+                ctx.edge();
+                ctx.check(sub, &rule, &d);
+            }
             // the bracket-less spelling of every one-operand deciding form: the operand is ONE value, whatever
             // it evaluates to (an array that comes out of an expression is not an operand list)
             if !e.is_array() {
